@@ -441,7 +441,7 @@ class Bf3File:
             if check_cmac:
                 if cmac(payload, session_key) != payload_cmac:
                     raise Bf3FileFormatError("Invalid CMAC of BF3 component")
-            if description.get(BF3TAG.ENC) == BF3ENC.SESSIONKEY:
+            if description.get(BF3TAG.ENC) == bytes([BF3ENC.SESSIONKEY]):
                 comp = Bf3Component.from_encrypted_raw_data(
                     description, payload, payload_len, session_key
                 )
